@@ -12,8 +12,14 @@ void probe () {
   mixed e;
   int *a;
   string s;
-  object u;
-  s = "tp=" + who (this_player ()) + " po=" + who (previous_object ());
+  object u, o;
+  mixed d, l;
+  // the two guards that error_handler must have reset: destructing another object, loading a fresh file
+  o = new ("/c05/box");
+  d = catch (destruct (o));
+  l = catch (load_object ("/c05/fresh"));
+  if (o = find_object ("/c05/fresh")) destruct (o);
+  s = "tp=" + who (this_player ()) + " po=" + who (previous_object ()) + " d=" + d + " l=" + l;
   a = map (({ 1, 2, 3 }), (: add1 :));
   a = filter (a, (: $1 > 2 :));
   e = catch (error ("probe-err\n"));
